@@ -21,7 +21,7 @@ ASSUMPTIONS = ['float64', 'pywt own round-trip error bounds the error allowed fo
                'sizes bounded as in C01']
 TIMEOUT = {'quick': 900, 'thorough': 3000}
 WORKER_BUDGET = {'quick': 600, 'thorough': 2400}
-MIN_HELD = {'quick': 300, 'thorough': 1500}
+MIN_HELD = {'quick': 300, 'thorough': 23923}
 
 
 def cells(tier, seed):
